@@ -9,12 +9,12 @@ SPEC = {
         "C01_sound_refuted_merge_not_alias", "C01_fixed_witness_blocked_label_key_alias", "C01_nonvacuous", "C01_nonvacuous_alias", "C01_nonvacuous_merge"]},
     "harness_args": lambda tier: (["C01", "--n", 300, "--cat", 40, "--stress", 4] if tier == "quick"
                                   else ["C01", "--n", 8000, "--cat", -1, "--stress", 40]),
-    "search_args": lambda tier: ["C01", "--n", 3000, "--cat", -1, "--stress", 16],
+    "search_args": lambda tier: ["C01", "--n", 4000, "--cat", -1, "--stress", 16, "--oracle-only"],
     "level": "proof",
     "trusted_base": [
         "Coq 8.16.1 kernel + VM; no axioms (Print Assumptions: closed under the global context)",
         "hand-written Gallina models over the node forest yaml.v3 returned: pint's strict parser (Model/Parser.v, as of /repo HEAD incl. "
-        "d65cbbf, cc77cdd, a6b0afc, 3dfcdb6, b9483ac, 17469da, e113542, b22de24, 4a0d172), readRules + the Bug/Fatal checks C01 relies on (Model/Routing.v: yaml/parse, promql/syntax, "
+        "d65cbbf, cc77cdd, a6b0afc, 3dfcdb6, b9483ac, 17469da, e113542, b22de24, 4a0d172, 2108dfa, cd8be7e; checked against HEAD 6f3f221), readRules + the Bug/Fatal checks C01 relies on (Model/Routing.v: yaml/parse, promql/syntax, "
         "alerts/for invalid duration, alerts/template syntax), Prometheus' loader (Model/PromLoader.v: yaml.v3 struct decoding of RuleGroups "
         "with KnownFields, duplicate keys, merge keys, aliases, faithful null handling incl. explicit !!null tags, + rulefmt Validate) and "
         "the masking reader (Model/Reader.v, tied by C10)",
